@@ -26,6 +26,17 @@ add("C07", "proof",
     "Atomics are sequentially consistent steps; weak fairness of the Go scheduler; what happens between two hook points is one model step (hooks are placed at every atomic access of the counter). Model/code agreement: all schedules of 2-task batches x one injected failure, sampled for 3..5 tasks.",
     "Coq proof (inductive invariant over an interleaving transition system) + controlled-scheduler trace replay of the real goroutines through the extracted model", "5.5, 6/C07")
 
+STREAM_NOTE = "Codec contracts are assumptions at this layer (exercised by C12/C13). Models coq/Model/Writer.v and Reader.v are tied to the Go objects by operation-sequence correspondence (commands wrm/rdm) on every run; theorems about them are being added (see DESIGN.md); until then the level claimed is exploration."
+def stream(pid, text, technique, ref):
+    add(pid, "exploration", text, STREAM_NOTE, technique, ref)
+stream("C01", "Implementation-side search of the round-trip property over random pipelines (all data shapes, chains of 1..8, all entropy codecs, hints incl. inexact, headerless) + Writer/Reader state-machine models (Coq, extracted) compared with the Go objects on random call sequences.", "differential round trip search + extracted Coq Writer/Reader models vs Go", "6/C01")
+stream("C02", "Payload damage located by an independent container parser (bit flips, substitutions, swaps, in-pipeline damage through verif hooks), reading on after errors; Reader model (Coq, extracted) compared with the Go Reader on damaged and truncated streams.", "fault enumeration over payload positions + extracted Coq Reader model vs Go", "6/C02")
+stream("C04", "Byte comparison of the produced stream across job counts, repeated runs, Write partitions and perturbed schedules (verif yield hooks); Writer model (Coq, extracted) compared with the Go Writer on random call sequences; the protocol side is proved in C07.", "differential byte comparison across jobs/partitions/schedules + extracted Coq Writer model vs Go", "6/C04")
+stream("C05", "Decoding with every job count under perturbed schedules; a damaged block at every position, reading on after the error; Reader model (Coq, extracted) compared with the Go Reader; the protocol side is proved in C07.", "differential decoding across jobs/schedules + failing block at each position + extracted Coq Reader model vs Go", "6/C05")
+stream("C06", "Short-read sources, Read sizes incl. 0, Write partitions at the stream level; bit stream programs over short-read schedules compared with the extracted Coq InBS model.", "differential over chunk schedules + extracted Coq bit stream model vs Go", "6/C06")
+stream("C09", "Every strict prefix of small streams (boundary-focused + random for larger) must end in an error; Reader model (Coq, extracted) compared with the Go Reader on streams truncated before the end marker.", "exhaustive cut positions for small streams + extracted Coq Reader model vs Go", "6/C09")
+stream("C11", "All ranges x jobs 1..8 on streams of up to 12 blocks against the exact slice, listener check that skipped blocks are not decoded; Reader model (Coq, extracted) with from/to compared with the Go Reader.", "exhaustive small ranges + extracted Coq Reader model vs Go", "6/C11")
+
 NOT_YET = {}
 def main():
     props = [json.loads(l)["id"] for l in open(os.path.join(ROOT, "properties.jsonl"))]
